@@ -19,20 +19,27 @@ def refill_ok(p, si, ri, after):
     """the path contains, after event index `after`, one pass through a `for _ in 0..ring_buffer.max_len()` loop whose body is
     push(signal.next()); returns (kind, why): kind in {'iteration', 'exit'}"""
     loops = [l for l in range_loops(p) if l['enter'] > after]
-    if len(loops) != 1:
+    counters = [l for l in counter_loops(p) if l['enter'] > after] if not loops else []
+    if len(loops) + len(counters) != 1:
         return None, 'expected one refill loop over a range'
-    l = loops[0]
+    l = (loops or counters)[0]
     hi = l['hi']
     ok_bound = l['lo'] == ('int', 0, 'usize') and hi[0] == 'ret' and rb(p['events'][hi[1]], 'max_len') and p['events'][hi[1]]['args'][0] == ('ref', self_loc(ri))
     if not ok_bound:
         return None, 'refill loop must run over 0..ring_buffer.max_len() (is %s..%s)' % (short(l['lo']), short(hi))
-    if len(l['nexts']) != 1:
-        return None, 'refill loop advances its range %d times per iteration' % len(l['nexts'])
-    d = dict(cond_facts(p)).get(('discr', ('ret', l['nexts'][0])))
-    body_evs = [(k, e) for k, e in call_events(p) if k > l['nexts'][0]]
+    if counters:
+        # `while pushed < max_len { ..; pushed += 1 }`: same trip count as the range loop
+        start = l['enter']
+        d = ('int', 1, 'isize') if l['kind'] == 'iteration' else ('int', 0, 'isize')
+    else:
+        if len(l['nexts']) != 1:
+            return None, 'refill loop advances its range %d times per iteration' % len(l['nexts'])
+        start = l['nexts'][0]
+        d = dict(cond_facts(p)).get(('discr', ('ret', start)))
+    body_evs = [(k, e) for k, e in call_events(p) if k > start]
     nx = [(k, e) for k, e in body_evs if is_call(e, SIGNAL, 'next')]
     pu = [(k, e) for k, e in body_evs if rb(e, 'push')]
-    outside = [(k, e) for k, e in call_events(p) if k < l['nexts'][0] and (is_call(e, SIGNAL, 'next') or rb(e, 'push'))]
+    outside = [(k, e) for k, e in call_events(p) if k < start and (is_call(e, SIGNAL, 'next') or rb(e, 'push'))]
     if outside:
         return None, 'pulls or pushes outside the refill loop'
     if d == ('int', 1, 'isize'):
